@@ -121,6 +121,22 @@ def run(ctx):
             shared = any(o.kind in ("place", "param") and o.what == 1 and ("." + fld) in o.proj for o in os_) and not any(o.kind == "call" and o.call.name.split("::")[-1] in ("new", "default") and "Arc" in o.call.name for o in os_)
             r2.check(shared, "derived-pool-shares-gate:%s@%s" % (fld, b_.name.split("::")[-1]), "the pool built from `self` shares self.%s" % fld,
                      "%s builds a pool from an existing one with a fresh `%s`: clients held on the existing pool wait on a gate that RESUME (which walks the pools in POOLS) never opens" % (b_.name.split("::")[-1], fld), st["span"])
+    # a pool that from_config builds anew in place of a live one (its definition changed) takes the live pool's gate over: clients held at the old gate
+    # must be reached by RESUME, and a pause must not vanish in a reload (D62)
+    fc16 = F.body("pgcat::pool::ConnectionPool::from_config::{closure#0}")
+    if fc16 is not None:
+        for b_, blk, st in F.aggregates("pgcat::pool::ConnectionPool"):
+            if b_ is not fc16:
+                continue
+            for fld in sorted(gate | {"paused_waiter"}):
+                if fld not in st["rv"]["fields"]:
+                    continue
+                op = st["rv"]["ops"][st["rv"]["fields"].index(fld)]
+                thr_ = []
+                os_ = origins(fc16, op, taint=True, through=thr_)
+                from_live = any(o.kind in ("place", "param") and ("." + fld) in o.proj for o in os_) and any(o.kind == "call" and o.call.name == "pgcat::pool::get_pool" for o in os_)
+                r2.check(from_live, "rebuilt-pool-keeps-gate:" + fld, "the pool built in place of a live one shares the live pool's %s (a fresh one only when there was none)" % fld,
+                         "from_config gives a rebuilt pool a fresh `%s`: after PAUSE, a RELOAD that changes the pool's definition, RESUME - the clients held before the reload wait on the old gate for ever, and the pause itself is lost for new transactions" % fld, st["span"])
     r2.check(fresh >= 2, "per-pool-gate", "every ConnectionPool is built with its own flag and Notify", "ConnectionPool construction no longer creates its own pause flag / Notify")
     # ---------------- R3
     r3 = ctx.rule("C16-R3", "every checkout in Client::handle is preceded, in the same idle-loop iteration, by wait_paused(), and nothing is sent to a server before it", floor=2)
